@@ -166,4 +166,93 @@ theorem inside_scale {atol c : α} {poly : List (α × α)} {pt : α × α} (h0 
     pointInside atol (poly.map (scale c)) (scale c pt) = pointInside atol poly pt := by
   rw [inside_eq_evenOdd_of_far h0 hfar', inside_eq_evenOdd_of_far h0 hfar, evenOdd_scale hc]
 
+/-! ### the vector interface and `cells_inside_polygon` -/
+
+/-- `points_inside_polygon` answers each point independently with the per-point model; a caller-supplied answer
+vector (of the right length) is zeroed first, so its previous content never shows -/
+theorem pointsInside_eq_map (atol : α) (pts : List (α × α)) (v0 : α × α) (t : List (α × α)) :
+    pointsInsidePolygon atol pts (v0 :: t) none = .ok (pts.map (pointInside atol (v0 :: t))) ∧
+    pointsInsidePolygon atol pts (v0 :: t) (some pts.length) = .ok (pts.map (pointInside atol (v0 :: t))) :=
+  ⟨pointsInsidePolygon_cons atol pts v0 t none (by intro n h; cases h),
+   pointsInsidePolygon_cons atol pts v0 t (some pts.length) (by intro n h; cases h; rfl)⟩
+
+/-- the only rejected calls: an empty polygon, an answer vector of the wrong length -/
+theorem pointsInside_error_iff (atol : α) (pts poly : List (α × α)) (insideLen : Option Nat) :
+    (∃ e, pointsInsidePolygon atol pts poly insideLen = .error e) ↔
+      (poly = [] ∨ ∃ n, insideLen = some n ∧ n ≠ pts.length) := by
+  cases insideLen with
+  | none =>
+    cases poly with
+    | nil => simp [pointsInsidePolygon]
+    | cons v0 t => simp [pointsInsidePolygon]
+  | some n =>
+    by_cases hn : n = pts.length
+    · cases poly with
+      | nil => simp [pointsInsidePolygon, hn]
+      | cons v0 t => simp [pointsInsidePolygon, hn]
+    · simp [pointsInsidePolygon, hn]
+
+/-- `cells_inside_polygon` lists exactly the cells of the grid whose centre the point test accepts,
+each once, in increasing cell number -/
+theorem cells_mem_iff (nrows ncols : Nat) (xll yll csz atol : α) (v0 : α × α) (t : List (α × α)) :
+    ∃ l, cellsInside nrows ncols xll yll csz atol (v0 :: t) = .ok l ∧ l.Pairwise (· < ·) ∧
+      ∀ i, i ∈ l ↔ (i < nrows * ncols ∧ pointInside atol (v0 :: t) (cellCentre nrows ncols xll yll csz i) = true) := by
+  refine ⟨_, cellsInside_cons nrows ncols xll yll csz atol v0 t, ?_, ?_⟩
+  · exact List.Pairwise.filter _ List.pairwise_lt_range
+  · intro i; simp [List.mem_filter]
+
+/-- … and, when every cell centre is farther than the tolerance from the boundary, exactly the cells whose
+centre is interior under the even-odd rule -/
+theorem cells_mem_iff_evenOdd (nrows ncols : Nat) (xll yll csz atol : α) (v0 : α × α) (t : List (α × α))
+    (h0 : 0 ≤ atol)
+    (hfar : ∀ i, i < nrows * ncols → Far atol (v0 :: t) (cellCentre nrows ncols xll yll csz i)) :
+    ∃ l, cellsInside nrows ncols xll yll csz atol (v0 :: t) = .ok l ∧
+      ∀ i, i ∈ l ↔ (i < nrows * ncols ∧ evenOdd (v0 :: t) (cellCentre nrows ncols xll yll csz i) = true) := by
+  obtain ⟨l, hl, -, hmem⟩ := cells_mem_iff nrows ncols xll yll csz atol v0 t
+  refine ⟨l, hl, fun i => ?_⟩
+  rw [hmem]
+  constructor
+  · rintro ⟨hi, h⟩; exact ⟨hi, by rw [← inside_eq_evenOdd_of_far h0 (hfar i hi)]; exact h⟩
+  · rintro ⟨hi, h⟩; exact ⟨hi, by rw [inside_eq_evenOdd_of_far h0 (hfar i hi)]; exact h⟩
+
+/-- cell `r * ncols + c` (row `r` from the top, column `c` from the left) has its centre at
+`(xll + csz (c + ½), yll + csz (nrows - 1 - r + ½))` -/
+theorem cellCentre_rowcol (nrows ncols : Nat) (xll yll csz : α) (r c : Nat) (hc : c < ncols) :
+    cellCentre nrows ncols xll yll csz (r * ncols + c) =
+      (xll + csz * ((c : α) + 1 / 2), yll + csz * (((nrows - 1 - r : Nat) : α) + 1 / 2)) := by
+  have h1 : (r * ncols + c) % ncols = c := by
+    rw [Nat.add_comm, Nat.add_mul_mod_self_right, Nat.mod_eq_of_lt hc]
+  have h2 : (r * ncols + c - c) / ncols = r := by
+    rw [Nat.add_sub_cancel, Nat.mul_div_cancel _ (Nat.lt_of_le_of_lt (Nat.zero_le c) hc)]
+  simp only [cellCentre, h1, h2, Nat.cast_one, Nat.cast_ofNat]
+
+/-! ### non-vacuity: the hypotheses are met by concrete, non-trivial inputs (over ℚ) -/
+
+/-- the triangle (0,0) (4,0) (0,4); the point (1,1) is farther than 1/100 from its boundary -/
+example : Far (1 / 100 : ℚ) [(0, 0), (4, 0), (0, 4)] (1, 1) := by
+  intro e he
+  simp only [edges, edgesFrom, List.cons_append, List.nil_append, List.mem_cons, List.not_mem_nil, or_false] at he
+  intro s hs0 hs1
+  rcases he with rfl | rfl | rfl
+  · right; norm_num
+  · by_cases h : s ≤ 1 / 2
+    · left; rw [lt_abs]; right; norm_num; linarith
+    · right; rw [lt_abs]; right; norm_num; linarith
+  · left; norm_num
+
+example : pointInside (1 / 100 : ℚ) [(0, 0), (4, 0), (0, 4)] (1, 1) = true := by decide +kernel
+example : evenOdd [(0, 0), (4, 0), (0, 4)] ((1, 1) : ℚ × ℚ) = true := by decide +kernel
+example : evenOdd [(0, 0), (4, 0), (0, 4)] ((3, 3) : ℚ × ℚ) = false := by decide +kernel
+/-- a point level with a vertex, polygon passing through that level (half-open rule at work) -/
+example : evenOdd [(0, 0), (4, 2), (0, 4)] ((1, 2) : ℚ × ℚ) = true ∧
+    evenOddLeft [(0, 0), (4, 2), (0, 4)] ((1, 2) : ℚ × ℚ) = true := by decide +kernel
+example : Sep (1 / 100 : ℚ) [(0, 0), (4, 0), (0, 4)] := by
+  intro e he
+  simp only [edges, edgesFrom, List.cons_append, List.nil_append, List.mem_cons, List.not_mem_nil, or_false] at he
+  rcases he with rfl | rfl | rfl <;> (unfold SepEdge; norm_num)
+example : OffEdges [(0, 0), (4, 0), (0, 4)] ((1, 1) : ℚ × ℚ) := by
+  intro e he
+  simp only [edges, edgesFrom, List.cons_append, List.nil_append, List.mem_cons, List.not_mem_nil, or_false] at he
+  rcases he with rfl | rfl | rfl <;> (intro _; unfold xint; norm_num)
+
 end HydroVerif.C15
